@@ -140,7 +140,10 @@ class Ref:
 
     def _build(self):
         for path, value in self.prog.get("inits", []):
-            self.share(path, True).fields["value"] = value
+            if isinstance(value, dict):
+                self.share(path, True).fields.update(value)
+            else:
+                self.share(path, True).fields["value"] = value
         fronts, mids, backs = [], [], []
         for fm in self.prog["framers"]:
             R = RFramer(fm["name"])
@@ -201,7 +204,7 @@ class Ref:
                         F.auxes.append(self.framers[it[1]])
                     elif k == "auxif":
                         F.preacts.append(("auxif", it[1], list(it[2])))
-                    elif k in ("done", "bid", "fiat", "put", "inc", "copy", "rear", "raze"):
+                    elif k in ("done", "bid", "fiat", "put", "inc", "copy", "rear", "raze", "putf", "copyf", "incf", "set", "setfrom"):
                         self._ctxlist(F, it[1]).append(it)
                     else:
                         raise RefError("unknown item %r" % (it,))
@@ -259,6 +262,8 @@ class Ref:
         R = F.framer
         if k == "cmp":
             r = check(self.share(n[1]).fields["value"], n[2], n[3], n[4])
+        elif k == "cmpf":
+            r = check(self.share(n[2]).fields[n[1]], n[3], n[4], n[5])
         elif k == "cmpi":
             r = check(self.share(n[1]).fields["value"], n[2], self.share(n[3]).fields["value"], n[4])
         elif k == "bool":
@@ -398,6 +403,26 @@ class Ref:
             return None
         if k == "copy":
             self.update(a[3], value=self.share(a[2]).fields["value"])
+            return None
+        if k == "putf":
+            self.share(a[3], True)
+            self.update(a[3], **dict(a[2]))
+            return None
+        if k == "copyf":
+            src = self.share(a[3])
+            self.update(a[5], **{d: src.fields[s_] for s_, d in zip(a[2], a[4])})
+            return None
+        if k == "incf":
+            sh = self.share(a[3])
+            self.update(a[3], **{a[2]: sh.fields[a[2]] + a[4]})
+            return None
+        if k == "set":
+            self.share(a[2], True)
+            self.update(a[2], value=a[3])
+            return None
+        if k == "setfrom":
+            self.share(a[2], True)
+            self.update(a[2], value=self.share(a[3]).fields["value"])
             return None
         raise RefError("unknown act %r" % (a,))
 
